@@ -69,6 +69,25 @@ def sweep(ctx, n):
                 if not eq(np.asarray(val)):
                     bad(f"interface:{cls}:{name}", f"{name} differs from get{X}(src, obs)", {"class": cls, "field": X, "form": name,
                         "max_abs_diff": float(np.max(np.abs(np.asarray(val) - ref))) if np.shape(val) == np.shape(ref) else "shape"})
+            # the functional interface called for several fields in a row with the SAME caller-owned float64 arrays
+            # (full per-instance shapes): every call must agree with the object-oriented result, whatever ran before
+            stk = {k: (np.array([v] * 4, dtype=float) if k not in ("mesh",) else [v] * 4) for k, v in dict_kwargs(cls, src).items()}
+            spos, sori = np.tile(pos, (4, 1)), R.from_quat(np.tile(ori.as_quat(), (4, 1)))
+            order = list("JMBH")
+            rng.shuffle(order)
+            forms["dict-stacked-sequence"] = forms.get("dict-stacked-sequence", 0) + 1
+            for Y in order:
+                want = getattr(magpy, "get" + Y)(src, obs)
+                try:
+                    got = getattr(magpy, "get" + Y)(cls, obs, position=spos, orientation=sori, **stk)
+                except Exception as e:
+                    bad(f"interface:{cls}:dict-stacked-sequence", f"get{Y} in the sequence {''.join(order)} raised {type(e).__name__}: {str(e)[:120]}", {"class": cls, "order": order})
+                    break
+                scy = float(np.max(np.abs(want))) + field_scale(src) * 1e-9 * (1 if Y in "BJ" else 1 / magpy.mu_0)
+                if np.shape(got) != np.shape(want) or not np.allclose(got, want, rtol=1e-9, atol=1e-9 * scy):
+                    bad(f"interface:{cls}:dict-stacked-sequence", f"functional get{Y} differs from the object-oriented result when called in the sequence {''.join(order)} with the same arrays",
+                        {"class": cls, "order": order, "field": Y})
+                    break
             # a sensor with a moving / rotating / mirrored-orientation path vs one static sensor per path step
             if i % 2 == 0:
                 mlen = rng.choice([2, 3, 4])
